@@ -200,6 +200,11 @@ type Monitor struct {
 	// Puppet mode: one real node, peers played by the harness, requests strictly sequential.
 	start time.Time
 
+	// step counters for bounded-progress checks (C15): completed exchanges per directed link, candidacy rounds
+	LinkExch  map[[2]string]int
+	rvRoundSeen map[string]bool
+	RVRounds  int
+
 	Puppet bool
 	// set once requests overlapped in a puppet case: exact before/after reasoning is off from then on
 	concurrent bool
@@ -208,6 +213,8 @@ type Monitor struct {
 func New() *Monitor {
 	return &Monitor{
 		start:        time.Now(),
+		LinkExch:     map[[2]string]int{},
+		rvRoundSeen:  map[string]bool{},
 		Nodes:        map[string]*NodeSh{},
 		Counts:       map[string]int{},
 		violSeen:     map[string]bool{},
@@ -393,6 +400,9 @@ func (m *Monitor) feed(ev *Event) {
 	case KReplied:
 		if mi := m.msgs[ev.Msg.ID]; mi != nil {
 			mi.replied = true
+		}
+		if ev.Msg.Kind != "RV" {
+			m.LinkExch[[2]string{ev.Msg.From, ev.Msg.To}]++
 		}
 	case KSample:
 		m.onSample(ev)
@@ -1119,6 +1129,13 @@ func (m *Monitor) onSend(ev *Event) {
 	mi := &msgInfo{m: *mm, sendSeq: ev.Seq}
 	m.msgs[mm.ID] = mi
 	m.Counts["msg."+mm.Kind]++
+	if mm.Kind == "RV" {
+		k := fmt.Sprintf("%s/%d/%d/%v", mm.From, mm.FromInc, mm.Term, mm.Prevote)
+		if !m.rvRoundSeen[k] {
+			m.rvRoundSeen[k] = true
+			m.RVRounds++
+		}
+	}
 	if mm.Kind == "AE" || mm.Kind == "IS" {
 		if prev, ok := m.msgLeader[mm.Term]; ok && prev != mm.Leader {
 			m.violate(ev, []string{"C02"}, "two-leaders", "", "requests of term %d name leader %s and leader %s", mm.Term, prev, mm.Leader)
@@ -1416,4 +1433,39 @@ func (n *NodeSh) maxSnapLabel() uint64 {
 		}
 	}
 	return mx
+}
+
+// Steps returns the bounded-progress step counters (call without holding the lock).
+func (m *Monitor) Steps() (rvRounds int, leaderStarts int, exch map[[2]string]int) {
+	m.mu.Lock()
+	defer m.mu.Unlock()
+	exch = make(map[[2]string]int, len(m.LinkExch))
+	for k, v := range m.LinkExch {
+		exch[k] = v
+	}
+	return m.RVRounds, len(m.BecameLeader), exch
+}
+
+// LinkTail renders the last n messages exchanged on a directed link (witness of a stuck link).
+func (m *Monitor) LinkTail(from, to string, n int) []string {
+	m.mu.Lock()
+	defer m.mu.Unlock()
+	var out []string
+	for i := len(m.Events) - 1; i >= 0 && len(out) < n; i-- {
+		e := &m.Events[i]
+		if e.Kind != KReply || e.Msg == nil || e.Msg.From != from || e.Msg.To != to {
+			continue
+		}
+		req := Msg{}
+		if mi := m.msgs[e.Msg.ID]; mi != nil {
+			req = mi.m
+		}
+		switch e.Msg.Kind {
+		case "AE":
+			out = append(out, fmt.Sprintf("AE(term %d prev %d/%d n=%d commit %d) -> ok=%v term=%d hint=%d", req.Term, req.Prev, req.PrevTerm, len(req.Ents), req.Commit, e.Msg.ROK, e.Msg.RTerm, e.Msg.RIndex))
+		case "IS":
+			out = append(out, fmt.Sprintf("IS(term %d label %d/%d off %d n=%d done=%v) -> written=%d term=%d", req.Term, req.LastIdx, req.LastTerm, req.Off, req.NBytes, req.Done, e.Msg.RWritten, e.Msg.RTerm))
+		}
+	}
+	return out
 }
